@@ -94,6 +94,8 @@ var forceCarry = map[string]struct{ msin, pos int }{}
 func genConfig(r *kernel.Rand, o GenOpts, nUE int) scn.Config {
 	var c scn.Config
 	c.AmfNgapIP, c.StgNgapIP, c.GnbGtpIP = genIP(r), genIP(r), genIP(r)
+	c.AmfNgapPort = r.Pick(38412, 48412, r.Range(1, 65535))
+	c.StgNgapPort = r.Pick(9487, r.Range(1, 65535))
 	switch r.Sub("wild").Intn(12) { // the unspecified local address is a legal value of stg_ngap_ip
 	case 0:
 		c.StgNgapIP = "0.0.0.0"
@@ -101,9 +103,14 @@ func genConfig(r *kernel.Rand, o GenOpts, nUE int) scn.Config {
 		c.StgNgapIP = "::"
 	case 2:
 		c.AmfNgapIP = "127.0.0.1"
+	case 3: // core and emulator on one host: the same address string at both ends
+		c.AmfNgapIP = "127.0.0.1"
+		c.StgNgapIP = "127.0.0.1"
+	case 4:
+		c.StgNgapIP = c.AmfNgapIP
+	case 5: // the same port number at both ends
+		c.StgNgapPort = c.AmfNgapPort
 	}
-	c.AmfNgapPort = r.Pick(38412, 48412, r.Range(1, 65535))
-	c.StgNgapPort = r.Pick(9487, r.Range(1, 65535))
 	c.MCC = r.Digits(3)
 	c.MNC = r.Digits(2 + r.Intn(2))
 	lo, hi := o.MinMSIN, o.MaxMSIN
